@@ -34,8 +34,8 @@ CFG = dict(
                          "accept-after:collision": 20, "accept-after:fsm-error": 3000,
                          "parser:bad-open-rejected": 100000, "random:histories": 4000,
                          "exhaustive:config-driver-combinations-completed": 100}),
-    quick=[e2("exh", "event::verif::c07::run", 8, 120, part="exhaustive", nshards=8, depth=4),
+    quick=[e2("exh", "event::verif::c07::run", 8, 300, part="exhaustive", nshards=8, depth=4),
            e2("rnd", "event::verif::c07::run", 2, 60, part="random", random=10000)],
-    thorough=[e2("exh", "event::verif::c07::run", 16, 1500, part="exhaustive", nshards=16, depth=5),
+    thorough=[e2("exh", "event::verif::c07::run", 16, 3000, part="exhaustive", nshards=16, depth=5),
               e2("rnd", "event::verif::c07::run", 4, 600, part="random", random=250000)],
 )
